@@ -8,10 +8,13 @@ m2 == [na |-> 2, nb |-> 1, g |-> <<<<1, 2, -3>>, <<0, 5, 4>>>>, q |-> <<-250, 37
 m3 == [na |-> 2, nb |-> 1, g |-> <<<<-4, 1, 0>>, <<2, -2, 8>>>>, q |-> <<500, 0>>]
 x1 == [na |-> 1, nb |-> 0, g |-> <<<<2, -1, 3>>>>, q |-> <<-875>>]
 
+x0 == [na |-> 0, nb |-> 0, g |-> <<>>, q |-> <<>>]                 \* a molecule without atoms
 Pool2  == <<m1, m2>>
+Pool2x0 == <<m1, m2, x1, x0>>
 Pool2x == <<m1, m2, x1>>
 Pool3  == <<m1, m2, m3>>
 Pool3x == <<m1, m2, m3, x1>>
+Pool3x0 == <<m1, m2, m3, x1, x0>>
 
 Rz   == <<<<0, 1, 0>>, <<-1, 0, 0>>, <<0, 0, 1>>>>        \* quarter turn about z
 Rx   == <<<<1, 0, 0>>, <<0, 0, -1>>, <<0, 1, 0>>>>        \* the matrix of the docstring example
